@@ -53,7 +53,104 @@ type Term struct {
 	// buffer built by successive appends, the boundaries of the appended pieces
 	Conj []*Term
 	Segs []*Term
+	// lin: canonical linear form of an integer term built by Add/Sub/Mul-by-
+	// constant (so that (x+32+k)-(x+32) is k, syntactically)
+	lin *linForm
 }
+
+type linAtom struct {
+	t *Term
+	k *big.Int
+}
+
+type linForm struct {
+	c *big.Int
+	a []linAtom // sorted by t.S, no zero coefficients
+}
+
+var bigZero = big.NewInt(0)
+
+func linOf(t *Term) *linForm {
+	if t.IsInt {
+		return &linForm{c: t.I}
+	}
+	if t.lin != nil {
+		return t.lin
+	}
+	return &linForm{c: bigZero, a: []linAtom{{t, bigOne}}}
+}
+
+// linComb returns x + sign*y.
+func linComb(x, y *linForm, sign int64) *linForm {
+	sg := big.NewInt(sign)
+	r := &linForm{c: new(big.Int).Add(x.c, new(big.Int).Mul(sg, y.c))}
+	i, j := 0, 0
+	for i < len(x.a) || j < len(y.a) {
+		switch {
+		case j >= len(y.a) || (i < len(x.a) && x.a[i].t.S < y.a[j].t.S):
+			r.a = append(r.a, x.a[i])
+			i++
+		case i >= len(x.a) || y.a[j].t.S < x.a[i].t.S:
+			r.a = append(r.a, linAtom{y.a[j].t, new(big.Int).Mul(sg, y.a[j].k)})
+			j++
+		default:
+			k := new(big.Int).Add(x.a[i].k, new(big.Int).Mul(sg, y.a[j].k))
+			if k.Sign() != 0 {
+				r.a = append(r.a, linAtom{x.a[i].t, k})
+			}
+			i++
+			j++
+		}
+	}
+	return r
+}
+
+func linScale(x *linForm, k *big.Int) *linForm {
+	r := &linForm{c: new(big.Int).Mul(x.c, k)}
+	if k.Sign() == 0 {
+		return r
+	}
+	for _, a := range x.a {
+		r.a = append(r.a, linAtom{a.t, new(big.Int).Mul(a.k, k)})
+	}
+	return r
+}
+
+// linTerm builds the canonical term of a linear form.
+func linTerm(f *linForm) *Term {
+	if len(f.a) == 0 {
+		return BigLit(f.c)
+	}
+	if len(f.a) == 1 && f.c.Sign() == 0 && f.a[0].k.Cmp(bigOne) == 0 {
+		return f.a[0].t
+	}
+	var parts []string
+	n := 0
+	for _, a := range f.a {
+		switch {
+		case a.k.Cmp(bigOne) == 0:
+			parts = append(parts, a.t.S)
+		default:
+			parts = append(parts, "(* "+BigLit(a.k).S+" "+a.t.S+")")
+		}
+		n += len(a.t.S) + 8
+	}
+	if f.c.Sign() != 0 {
+		parts = append(parts, BigLit(f.c).S)
+	}
+	if n > 400000 {
+		panic("gvc: term too large (engine limit)")
+	}
+	var t *Term
+	if len(parts) == 1 {
+		t = &Term{S: parts[0], Sort: SInt}
+	} else {
+		t = &Term{S: "(+ " + strings.Join(parts, " ") + ")", Sort: SInt}
+	}
+	t.lin = f
+	return t
+}
+
 
 var narr int64
 
@@ -151,7 +248,17 @@ func Add(a, b *Term) *Term {
 	if b.IsInt && b.I.Sign() == 0 {
 		return a
 	}
-	r := app(SInt, "+", a, b)
+	la, lb := linOf(a), linOf(b)
+	var r *Term
+	if len(la.a)+len(lb.a) <= 16 {
+		r = linTerm(linComb(la, lb, 1))
+		if r.IsInt || r.lin == nil {
+			return r
+		}
+		r = &Term{S: r.S, Sort: SInt, lin: r.lin}
+	} else {
+		r = app(SInt, "+", a, b)
+	}
 	al, ah := bounds(a)
 	bl, bh := bounds(b)
 	r.Lo, r.Hi = addB(al, bl), addB(ah, bh)
@@ -168,7 +275,17 @@ func Sub(a, b *Term) *Term {
 	if a.S == b.S {
 		return IntLit(0)
 	}
-	r := app(SInt, "-", a, b)
+	la, lb := linOf(a), linOf(b)
+	var r *Term
+	if len(la.a)+len(lb.a) <= 16 {
+		r = linTerm(linComb(la, lb, -1))
+		if r.IsInt || r.lin == nil {
+			return r
+		}
+		r = &Term{S: r.S, Sort: SInt, lin: r.lin}
+	} else {
+		r = app(SInt, "-", a, b)
+	}
 	al, ah := bounds(a)
 	bl, bh := bounds(b)
 	r.Lo, r.Hi = subB(al, bh), subB(ah, bl)
@@ -195,7 +312,24 @@ func Mul(a, b *Term) *Term {
 	if b.IsInt && b.I.Cmp(big.NewInt(1)) == 0 {
 		return a
 	}
-	r := app(SInt, "*", a, b)
+	var r *Term
+	if a.IsInt || b.IsInt {
+		c, x := a, b
+		if b.IsInt {
+			c, x = b, a
+		}
+		lx := linOf(x)
+		if len(lx.a) <= 16 {
+			lt := linTerm(linScale(lx, c.I))
+			if lt.IsInt {
+				return lt
+			}
+			r = &Term{S: lt.S, Sort: SInt, lin: lt.lin}
+		}
+	}
+	if r == nil {
+		r = app(SInt, "*", a, b)
+	}
 	if a.IsInt || b.IsInt {
 		c, x := a, b
 		if b.IsInt {
